@@ -37,7 +37,7 @@ vf::Config vf::config()
 {
     Config c;
     c.property = "C01";
-    c.maxLen = 400;
+    c.maxLen = 900;
     c.batch = 1;
     c.caseTimeout = 30;
     c.hardTimeout = 150;
@@ -129,13 +129,18 @@ static void judge(vf::Ctx &c, const char *name, const std::string &pkey, Problem
 
 // history shared by the fixtures on plan::Problem: solve [-> solve again] [-> clear + solve]
 static void runHistory(vf::Src &s, vf::Ctx &c, const char *name, const std::string &pkey, Problem &P, const ob::PlannerPtr &pl, double budgetScale, bool strict,
-                       bool bidir, bool unrecognizedMeansNoInput = false)
+                       bool bidir, bool unrecognizedMeansNoInput = false, bool noClear = false)
 {
     int steps = 1 + (int)s.weighted({5, 3, 2});
     bool first = true;
     for (int i = 0; i < steps; ++i)
     {
         bool doClear = i > 0 && s.flag();
+        if (doClear && noClear)
+        {
+            doClear = false;  // known finding excluded by construction (counted by the caller's key)
+            c.knownHits["hang/XXL"]++;
+        }
         double b = s.weighted({1, 8}) == 0 ? 0 : std::exp(s.real(0, std::log(4000.0)));
         long budget = (long)(b * budgetScale);
         CountPTC ptc(&c);
